@@ -17,6 +17,9 @@ type nfCase struct {
 	Counts []int  `json:"counts"` // their counts
 	Scale  int    `json:"scale"`
 	Tag    string `json:"tag"`
+	// Compact: the caller passes slices of exactly len(Syms) entries holding the counts in symbol order (as HuffmanEncoder
+	// does for its code length limiter), instead of 256-entry tables
+	Compact bool `json:"compact,omitempty"`
 }
 
 // nfVerdict checks the post-condition. size < 0 means "return value not observable" (in situ hook).
@@ -60,6 +63,23 @@ func nfVerdict(before, after, alphabet []int, total, scale, size int, err error)
 }
 
 func runNfCase(c *nfCase) (kind, detail string) {
+	if c.Compact {
+		n := len(c.Syms)
+		freqs := make([]int, n, 256)
+		alphabet := make([]int, n, 256)
+		total := 0
+		for i := range c.Syms {
+			freqs[i] = c.Counts[i]
+			total += c.Counts[i]
+		}
+		before := append([]int(nil), freqs...)
+		var size int
+		var err error
+		if p := catch(func() { size, err = entropy.NormalizeFrequencies(freqs, alphabet, total, c.Scale) }); p != nil {
+			return "panic", fmt.Sprintf("NormalizeFrequencies on %d-entry slices (total %d, scale %d): %v", n, total, c.Scale, p)
+		}
+		return nfVerdict(before, freqs, alphabet, total, c.Scale, size, err)
+	}
 	var freqs [256]int
 	var alphabet [256]int
 	total := 0
@@ -77,7 +97,7 @@ func runNfCase(c *nfCase) (kind, detail string) {
 }
 
 // In situ monitor state (installed by C01/C12/C16 workloads through the H3 hook)
-var nfSituCalls, nfSituChecked, nfSituSlow int64
+var nfSituCalls, nfSituChecked, nfSituSlow, nfSituCompact int64
 var nfSituMu sync.Mutex
 var nfSituViol []nfSitu
 
@@ -90,6 +110,9 @@ type nfSitu struct {
 func installNormalizeMonitor() {
 	entropy.SetVerifNormalizeHook(func(before, after, alphabet []int, totalFreq, scale int) {
 		atomic.AddInt64(&nfSituCalls, 1)
+		if len(before) < 256 {
+			atomic.AddInt64(&nfSituCompact, 1) // the Huffman code length limiter's slow path (slices of k < 256 entries)
+		}
 		if scale < 256 || scale > 65536 || len(alphabet) == 0 || totalFreq == 0 {
 			return
 		}
@@ -132,6 +155,7 @@ func reportNormalizeMonitor(run *core.Run) {
 	run.Count("insitu_normalize_calls", int(atomic.LoadInt64(&nfSituCalls)))
 	run.Count("insitu_normalize_checked", int(atomic.LoadInt64(&nfSituChecked)))
 	run.Count("insitu_normalize_rescaled", int(atomic.LoadInt64(&nfSituSlow)))
+	run.Count("insitu_normalize_calls_from_huffman_length_limiter", int(atomic.LoadInt64(&nfSituCompact)))
 	nfSituMu.Lock()
 	defer nfSituMu.Unlock()
 	for _, v := range nfSituViol {
@@ -307,6 +331,33 @@ func c16(run *core.Run, replay string) {
 			counts = append(counts, c)
 		}
 		add("random", syms, counts, scales[rr.Intn(len(scales))])
+	}
+	// the same function called with slices shorter than 256 entries (k symbols 0..k-1), totals below / equal to / above the scale
+	for _, sc := range scales {
+		for _, k := range []int{1, 2, 3, 18, 100, 255} {
+			for _, tot := range []int{sc - 1, sc, sc + 1, 3 * sc, max(k, sc/3)} {
+				if tot < k {
+					continue
+				}
+				for v := 0; v < 3; v++ {
+					rr := core.Derive(run.Seed, "c16c", sc, k, tot, v)
+					var syms, counts []int
+					rem := tot
+					for j := 0; j < k; j++ {
+						c := 1
+						if j == k-1 {
+							c = rem
+						} else if rem-(k-j-1) > 1 {
+							c = 1 + rr.Intn(max(1, (rem-(k-j-1))/(1+v)))
+						}
+						rem -= c
+						syms = append(syms, j)
+						counts = append(counts, c)
+					}
+					cases = append(cases, &nfCase{Syms: syms, Counts: counts, Scale: sc, Tag: "compact", Compact: true})
+				}
+			}
+		}
 	}
 	core.ParallelDo(len(cases), 0, func(i int) { check(cases[i]) })
 	byTag := map[string]int{}
